@@ -1794,6 +1794,53 @@ def _helper_shape_ignoring_decorators(fn):
     return _helper_shape(fn)
 
 
+def _merge_suffixed_locals(fn, ref_names):
+    """Locals of inlined helpers that had to be renamed away from a caller name (`line` -> `line_h5`) get the plain name back when
+    their lifetime cannot overlap the plain name's: in source order the suffixed name is first bound, no occurrence of the plain
+    name (or of another variant) lies between its first and last occurrence, and the next occurrence of the plain name after it -
+    if any - binds it again.  (The reference function re-uses one local for consecutive blocks in exactly this way.)"""
+    import re as _re
+    occ = []
+    for n in ast.walk(fn):
+        if isinstance(n, ast.Name) and hasattr(n, 'lineno'):
+            occ.append((n.lineno, n.col_offset, n))
+    # inlined fragments share a line number: fall back to walk order within a line
+    order = {id(n): k for k, n in enumerate(x for x in ast.walk(fn) if isinstance(x, ast.Name))}
+    seq = [n for n in ast.walk(fn) if isinstance(n, ast.Name)]
+    # source order approximated by a pre-order traversal of the statement list
+    seq = []
+
+    def pre(node):
+        for ch in ast.iter_child_nodes(node):
+            if isinstance(ch, ast.Name):
+                seq.append(ch)
+            pre(ch)
+    pre(fn)
+    fam = {}
+    for n in seq:
+        m = _re.match(r'^(.*)_h(\d+)$', n.id)
+        base = m.group(1) if m else n.id
+        fam.setdefault(base, []).append(n)
+    changed = False
+    for base, nodes in fam.items():
+        if base not in ref_names:
+            continue
+        variants = sorted({n.id for n in nodes if n.id != base})
+        for v in variants:
+            idxs = [k for k, n in enumerate(nodes) if n.id == v]
+            first, last = idxs[0], idxs[-1]
+            if not isinstance(nodes[first].ctx, ast.Store):
+                continue
+            if any(nodes[k].id != v for k in range(first, last + 1)):
+                continue
+            if last + 1 < len(nodes) and not isinstance(nodes[last + 1].ctx, ast.Store):
+                continue
+            for k in idxs:
+                nodes[k].id = base
+            changed = True
+    return changed
+
+
 def inline_fresh_helpers(rel, module):
     """Step S13.  Returns {helper: number of call sites inlined}."""
     import copy as _c
@@ -2061,12 +2108,20 @@ def inline_fresh_helpers(rel, module):
                     setattr(st, field, [expand_expr_calls(v, caller_cls) if isinstance(v, ast.AST) else v for v in val])
             i += 1
 
+    rn_all = None
     for lname, fn in list(module.funcs.items()):
         cls, _, name = lname.rpartition('.')
         if (cls, name) in helpers or (cls, name) in tail_helpers or '<locals>' in lname:
             continue
+        before_ = len(done)
+        n_before = sum(done.values())
         rec_block(fn.body, fn, cls)
         ast.fix_missing_locations(fn)
+        if sum(done.values()) != n_before:
+            if rn_all is None:
+                from .core import refnames as _rn
+                rn_all = _rn()
+            _merge_suffixed_locals(fn, set(rn_all.get(rel + '::' + lname, ())))
     # remove helpers that have no remaining reference in the module
     if done:
         remaining = {n.attr for n in ast.walk(module.tree) if isinstance(n, ast.Attribute)} | \
